@@ -492,7 +492,7 @@ struct Case {
         try {
             bool b = co_await kept_ref{&*kept};
             parked.store(false);
-            if (b) kept_true.store(true);
+            kept_true.store(b);   // await_resume stores `_state = !done()`
             ev(b ? "kawait=true" : "kawait=false");
         } catch (const no_more_values_exception &) {
             parked.store(false);
